@@ -185,12 +185,12 @@ def findClientNode (P : Params) (now : Nat) (s : Store) (x : Nat) : Look :=
       | .notFound => .notFound
       | .badType => .badType
 
-/-- `RefreshConnection`. -/
+/-- `RefreshConnection`.  (The index is read after the record was rewritten; a `Set` on the record key does
+not change what `Get` answers for the index key, so the read is modelled on `s`.) -/
 def refreshConnection (P : Params) (now : Nat) (s : Store) (c : Conn) : Store :=
   match getConnectionState P now s c with
   | .ok st =>
-    if st.control && decide (st.clientID > 0)
-        && clientIndexPointsTo now (set now P.ttl s (.conn c) (.info st)) st.clientID c then
+    if st.control && decide (st.clientID > 0) && clientIndexPointsTo now s st.clientID c then
       set now P.ttl (set now P.ttl s (.conn c) (.info st)) (.client st.clientID) (.id c)
     else set now P.ttl s (.conn c) (.info st)
   | _ => s
